@@ -4,7 +4,7 @@ PROP = dict(
     title="An arm is reported redundant exactly when no value can reach it",
     lean_module="AbraProofs.Properties.C13",
     required_theorems=["C13_useless_sound", "C13_useful_complete", "C13_redundant_iff", "C13_flags_length",
-                       "C13_equal_float_redundant"],
+                       "C13_equal_float_redundant", "C13_repeated_arm_redundant"],
     harness_bin="c13",
     mismatch_is_violation=True,
     rule="the (scrutinee type, arm list) universe of C12 (harness/src/patuniv.rs; a different seeded stream) plus every "
@@ -28,8 +28,8 @@ PROP = dict(
     design_ref="DESIGN.md §6 C13",
     level_text="Theorems (same model and invariant as C12, for every environment with inhabited types, scrutinee type, well-typed arm list and "
                "finishing run): the useful flag of arm i is true iff some well-typed value matches arm i and no earlier arm (pmatch = run-time "
-               "meaning of source patterns); so an arm is reported redundant exactly when unreachable, and a float literal repeated in any "
-               "spelling is redundant because constructors carry parsed bits. Tied to /repo on every run by diffing the redundant-arm sets "
+               "meaning of source patterns); so an arm is reported redundant exactly when unreachable, and an arm whose pattern repeats an earlier arm's pattern is redundant (C13_repeated_arm_redundant; for float literals "
+               "the model's constructors carry the parsed bits, so two spellings of one double are the same pattern: C13_equal_float_redundant is the two-leading-arms case). Tied to /repo on every run by diffing the redundant-arm sets "
                "of the real checker with the model's flags, plus a brute-force reachability oracle.",
     level_note="Termination of the recursion is proved in C12 (C12_terminates), so the theorems are unconditional in the fuel. Int/float spaces unbounded in the model.",
     technique="Lean 4 theorems (Maranget-style induction over the matrix recursion) over a hand-written model + differential correspondence against the real checker + brute-force oracle",
